@@ -249,11 +249,11 @@ def c19_find_prefix(prop, tier, seed, idx, back=6):
     it: then state leaks from the models the batch worker ran before.  Look for a short list of predecessor cases that, run first
     in one fresh interpreter, change the digest of case `idx`.  Returns (case, prefix_cases) or None."""
     import tempfile
-    from . import gen_b
+    from . import gen_b, props
     from .rng import rng_for
 
     def mk(i):
-        c = gen_b.make_case(prop, rng_for(seed, tier, prop, "B", i), tier, {"c19": True})
+        c = gen_b.make_case(prop, rng_for(seed, tier, prop, "B", i), tier, props.c19_opts())
         c["seed"], c["run"] = seed, i
         return c
 
